@@ -225,3 +225,7 @@ mod test {
         assert_eq!(bf.bitset.len(), 16);
     }
 }
+
+#[cfg(all(transparencies_stretto_verif, any(kani, test)))]
+#[path = "/verif/harness/h_bbloom.rs"]
+mod verif_harness;
